@@ -55,7 +55,7 @@ PROPS = {
                 technique="contracts on the real code: representation invariant / dictionary-law obligations on the mapping dunders by pvc where reached; text/mapping agreement decided by run-time-checked postconditions over all short scripts of mapping operations (labelled bounded)",
                 text="after every step of every enumerated script: text tree == dict model == lookups; KeyError without side effects",
                 note="bounded; see DESIGN.md C14"),
-    "C16": dict(level="proof", bounded="bounded.b_c16", trusted_base=TRUSTED_COMMON + ["assumed contracts on argparse, parse, set_value, remove_value, rebuild (listed in evidence.assumptions)"],
+    "C16": dict(level="proof", bounded="bounded.b_c16", analyses=["analyses.global_state"], trusted_base=TRUSTED_COMMON + ["assumed contracts on argparse, parse, set_value, remove_value, rebuild (listed in evidence.assumptions)"],
                 technique="deductive verification (pvc) of cli/main.py::main against a contract stated relative to uninterpreted library functions; subprocess runs as bounded cross-check",
                 text="main(): verdict/exit code of `test`, stdout of set/rm = library text with a line terminator only when missing, nothing on stdout when an edit raises - proved for all inputs under the assumed library contracts",
                 note="argument/input-channel wiring inside argparse is assumed (External contract on parser.parse_args / args.file.read), and sampled by the subprocess stand-in"),
@@ -82,9 +82,18 @@ PROPS = {
         note="see evidence.assumptions and trusted_base",
     ),
     "C12": dict(
-        level="proof", bounded=None, trusted_base=TRUSTED_COMMON,
-        technique="deductive verification (pvc VC generation over the real source + z3/cvc5): tokenizer vs grammar automaton, escaper vs Nix string-lexer automaton",
+        level="proof", bounded="bounded.b_c12", trusted_base=TRUSTED_COMMON + ["independent Nix string decoder and CST reader (specs/nixlex.py, bounded/readers.py)"],
+        technique="deductive verification (pvc VC generation over the real source + z3/cvc5): tokenizer vs grammar automaton, escaper vs Nix string-lexer automaton; the composition with the library re-reading what it wrote is a run-time-checked postcondition over enumerated names (labelled bounded)",
         text="NPath tokenizer proved equivalent to the grammar automaton and attribute-name escaping proved to round-trip through the Nix string lexer, for all strings",
-        note="see evidence.assumptions and trusted_base",
+        note="proved for all strings: _parse_npath, _format_attr_name, _escape_nix_string, the lookup helpers. NOT proved, bounded only (62 k names x set/set/rm): that the library finds the same binding again when it re-reads its own output (binding.py:_split_attrpath has no contract) and that spellings denote one attribute; see evidence.assumptions and trusted_base",
     ),
 }
+
+# Every property is stated "for every input / history": a result that depends on process-wide mutable state (a cache
+# keyed by equality, a registry, a mutable default) depends on what the process did before, whatever the property is
+# about.  The inventory of such state (analyses/global_state.py) is therefore an obligation of every check.
+for _p in PROPS.values():
+    _a = list(_p.get("analyses") or [])
+    if "analyses.global_state" not in _a:
+        _a.append("analyses.global_state")
+    _p["analyses"] = _a
